@@ -392,7 +392,13 @@ CLEANUP:
 	if (basis)
 	{
 		if (writebasis)
-			rval = mpq_QSwrite_basis (p_mpq, 0, writebasis);
+		{
+			/* keep an earlier error: the exit status must not turn into success
+			 * because the basis could still be written */
+			int wval = mpq_QSwrite_basis (p_mpq, 0, writebasis);
+			if (!rval)
+				rval = wval;
+		}
 	}
 	mpq_QSfree_basis (basis);
 	mpq_QSfree_prob (p_mpq);
